@@ -41,6 +41,9 @@ B == FromRaw(R.spin, R.b)
 Upd == Norm(DOMAIN A \cup DOMAIN B, LAMBDA m : IF m \in DOMAIN B THEN B[m] ELSE A[m])
 Expect(op) == CASE op \in {"add", "iadd"} -> Add(A, B) [] op \in {"sub", "isub"} -> Sub(A, B)
                 [] op \in {"mul", "imul"} -> Mul(R.spin, A, B) [] op = "update" -> Upd
+                [] op = "neg" -> Neg(A) [] op = "pow2" -> Pow(R.spin, A, 2) [] op = "pow3" -> Pow(R.spin, A, 3)
+                [] op = "pow4" -> Pow(R.spin, A, 4) [] op = "pow5" -> Pow(R.spin, A, 5)
+Unary(op) == op \in {"neg", "pow2", "pow3", "pow4", "pow5"}
 InPlace(op) == op \in {"iadd", "isub", "imul", "update"}
 \* the keys the operator has to write into a copy of the left operand
 Comb(m, n) == IF R.spin THEN SDiff(m, n) ELSE m \cup n
@@ -51,9 +54,11 @@ Ops == 1..Len(R.ops)
 O(q) == R.ops[q]
 Value == Clause("Value", ~Case \/ \A q \in Ops : O(q).raised # "" \/ FromRaw(R.spin, O(q).res) = Expect(O(q).op))
 MustRaise == Clause("MustRaise", ~Case \/ \A q \in Ops : (Quad(R.kl) /\ Degree(Expect(O(q).op)) > 2) => O(q).raised = "KeyError")
-MayNotRaise == Clause("MayNotRaise", ~Case \/ \A q \in Ops : (~Quad(R.kl) \/ AllShort(O(q).op)) => O(q).raised = "")
+\* (for a power of a quadratic class only the non-quadratic-degree results are demanded to raise; intermediate products are not modelled)
+MayNotRaise == Clause("MayNotRaise", ~Case \/ \A q \in Ops :
+                  (IF Unary(O(q).op) THEN ~Quad(R.kl) \/ O(q).op = "neg" ELSE ~Quad(R.kl) \/ AllShort(O(q).op)) => O(q).raised = "")
 OnlyKeyError == Clause("OnlyKeyError", ~Case \/ \A q \in Ops : O(q).raised \in {"", "KeyError"})
-Class == Clause("Class", ~Case \/ \A q \in Ops : O(q).raised # "" \/ IF InPlace(O(q).op) THEN O(q).rkind = R.kl ELSE O(q).rkind \in {R.kl, R.kr})
+Class == Clause("Class", ~Case \/ \A q \in Ops : O(q).raised # "" \/ IF InPlace(O(q).op) \/ Unary(O(q).op) THEN O(q).rkind = R.kl ELSE O(q).rkind \in {R.kl, R.kr})
 \* the in-place forms a += b, a -= b, a *= b, a.update(b): afterwards a's reported variables, degree and variable count
 \* bound the true ones (C14) - whatever fast path the pair of classes takes
 Bookkeeping == Clause("Bookkeeping", ~Case \/ \A q \in Ops : (O(q).raised = "" /\ InPlace(O(q).op)) =>
